@@ -30,6 +30,8 @@ def frame(n):
         "ybig": np.array([2 ** 53 + 1 + 2 * int(k) for k in i], dtype="int64"),  # integers a float64 cannot hold exactly
         "ys": [["mid", "low", "high"][(k + k // 4) % 3] for k in i],
         "yq": [["level one", "b two", "a-3"][(2 * k + k // 3) % 3] for k in i],
+        "y1": ["only"] * n,  # a categorical response with a single level
+        "ye": [["", "b", " "][(k + k // 2) % 3] for k in i],  # an empty and a blank level name
     })
     df["yu"] = pd.Categorical(df["ys"], categories=["mid", "high", "low"])  # unordered: sorted order applies
     df["yo"] = pd.Categorical(df["ys"], categories=["low", "mid", "high"], ordered=True)  # declared order applies
@@ -44,6 +46,12 @@ for col, order in (("ys", "sorted"), ("yu", "sorted"), ("yo", "declared")):
         RESP.append({"text": f"{col}[{lvl}]", "kind": "level", "col": col, "level": lvl})
         RESP.append({"text": f"{col}['{lvl}']", "kind": "level", "col": col, "level": lvl})
 RESP.append({"text": "yq", "kind": "cat", "col": "yq", "order": "sorted"})
+RESP.append({"text": "y1", "kind": "cat", "col": "y1", "order": "sorted"})
+RESP.append({"text": "ye", "kind": "cat", "col": "ye", "order": "sorted"})
+for _q in ("'", '"'):
+    for _lvl in ("", " ", "b"):
+        RESP.append({"text": f"ye[{_q}{_lvl}{_q}]", "kind": "level", "col": "ye", "level": _lvl})
+RESP.append({"text": "y1[only]", "kind": "level", "col": "y1", "level": "only"})
 RESP.append({"text": "yo2", "kind": "cat", "col": "yo2", "order": "declared"})
 RESP.append({"text": "yo2[mid]", "kind": "level", "col": "yo2", "level": "mid"})
 for lvl in ("level one", "b two", "a-3"):
@@ -72,6 +80,9 @@ def units(tier, seed):
         rhss += ["f*g*x", "0 + f:x + (f|g)", "bs(x, df=4) + (1|g)", "C(f, Sum):x", "(0 + x|g) + (0 + z|g)", "x + z + x:z", "S(f) + T(g, 'g2')", "I(x ** 2) + {z / x}"]
     for n in (NS if tier == "quick" else [7, 10, 13, 16, 25]):
         for rhs in rhss:
+            u.append([{"n": n, "rhs": rhs}])
+    for n in (1, 2):  # frames with a single row / two rows
+        for rhs in ("x", "0 + x", "1", "x + z"):
             u.append([{"n": n, "rhs": rhs}])
     u.append([{"invalid": True}])
     for n in (NS if tier == "quick" else [7, 10, 13, 16, 25]):
@@ -126,7 +137,7 @@ def check_reuse(case, acc):
         f = f"{r['text']} ~ x"
         df2 = frame(case["n"] + 3).iloc[::-1].reset_index(drop=True)
         col = r.get("col")
-        if col is not None:
+        if col is not None and df2[col].nunique() > 1:
             gone = [l for l in sorted(set(df2[col].astype(str))) if l != r.get("level")][0]
             df2 = df2[df2[col].astype(str) != gone].reset_index(drop=True)
         acc.calls += 3
@@ -143,6 +154,23 @@ def check_reuse(case, acc):
         same = all((np.array_equal(a, b) if isinstance(a, np.ndarray) else a == b) for a, b in zip(second, fresh)) and second[0].shape == fresh[0].shape
         if not same:
             problems.append(f"{f!r}: the response of the second design built from one description (levels {second[2]}, shape {second[0].shape}) is not the response of a fresh design on that frame (levels {fresh[2]}, shape {fresh[0].shape})")
+    # ... and with another Environment object the second time: names of the response call come from the environment passed
+    for text in ("prop(s, m)", "fz(y)", "I(y * m)"):  # (not stateful transforms: those keep what they learnt the first time, by design)
+        f = f"{text} ~ x"
+        e1 = Environment([{"m": 5, "fz": (lambda v: v + 100.0), "lvl": "mid"}])
+        e2 = Environment([{"m": 9, "fz": (lambda v: v * 2.0), "lvl": "low"}])
+        acc.calls += 3
+        try:
+            desc = model_description(f)
+            DesignMatrices(desc, df1, e1)
+            second = resp_view(DesignMatrices(desc, df1, e2))
+            fresh = resp_view(DesignMatrices(model_description(f), df1, e2))
+        except Exception as e:
+            problems.append(f"{f!r}: one description evaluated with two Environment objects raised {type(e).__name__}: {e}")
+            continue
+        same = all((np.array_equal(a, b) if isinstance(a, np.ndarray) else a == b) for a, b in zip(second, fresh)) and second[0].shape == fresh[0].shape
+        if not same:
+            problems.append(f"{f!r}: evaluated a second time with another Environment object, the response is not that of a fresh description with that environment")
     acc.subcases(case, len(RESP) - 1, True, "response-forms")
     if problems:
         acc.case(case, "MISMATCH")
@@ -190,9 +218,13 @@ def check_case(case, acc):
         f = f"{r['text']} ~ {rhs}"
         acc.calls += 1
         acc.traces += 1
+        if r["kind"] == "binary" and r["text"] == "binary(f)":
+            r = dict(r, level=sorted(set(df["f"]))[0])  # the default success is the first level that occurs
         try:
             dm = build(f, df)
         except Exception as e:
+            if r["kind"] == "binary" and r["level"] not in set(df[r["col"]].astype(str)):
+                continue  # a success value that does not occur is rightly refused
             problems.append(("response-exists", f"{f!r} raised {type(e).__name__}: {e}"))
             continue
         if not same_pred(bp, pred(dm)):
